@@ -1,3 +1,1 @@
 import Hls.Proto
-import Hls.Storage.Model
-import Hls.Props.C17
